@@ -3,6 +3,10 @@ EXTENDS Quote
 (* byte alphabets: a printable character, the double and single quote, backslash, newline, CR, NUL, a control character,
    a digit, DEL, bytes >= 0x80 that are invalid UTF-8 on their own (200, 255) and that form the non-printable code points
    U+0080 (194 128) and U+2028 (226 128 168) *)
-BytesQ == {97, 34, 92, 10, 13, 0, 1, 49, 127, 200, 255, 194, 128}
+(* after a control byte written as a short decimal escape the next byte matters when it is a digit: every class of
+   digit (0, 1, 8, 9) and control bytes at the edges of the escape forms (6, 7 = \a, 14, 25, 31) *)
+BytesQ == {97, 34, 92, 10, 13, 0, 1, 49, 127, 200, 255, 194, 128, 48, 56, 57, 6, 7, 14, 25, 31}
 BytesT == BytesQ \cup {39, 226, 168, 9}
+(* the longer strings of the thorough tier use the first alphabet without the extra digits and control bytes *)
+BytesT4 == {97, 34, 92, 10, 13, 0, 1, 49, 57, 127, 200, 255, 194, 128, 39, 226, 168, 9}
 =============================================================================
